@@ -67,6 +67,19 @@ CHECKS = {
              'exact reconstruction) inside correct framing.',
         note='Trusted: reference model R. Fields wider than 50 bits with non-zero scale are outside the quantifier. '
              'Corpus messages whose exact table version is not bundled cannot be re-encoded (encoder has no fall-back).'),
+    'C03': dict(
+        level='model_checking', design='DESIGN.md §4 C03',
+        technique='exhaustive enumeration of the boundary lattice (raw in {-1,0,1,2^w-3..2^w+1} x 6 fractional offsets) for '
+                  'every bundled numeric Table B definition x 6 operator contexts x {uncompressed, compressed}; every string '
+                  'length 0..w+2; E1 choice-tree exploration of generated messages and the whole corpus for the '
+                  'encode/decode fixpoint',
+        text='For every lattice point the real Encoder->Decoder chain must either refuse or read back within half a unit '
+             '(exact rational arithmetic) or as missing exactly when the scaled integer is the all-ones pattern; '
+             'uncompressed out-of-range points must be refused; every generated and corpus message must reach a byte '
+             'fixpoint after one round trip with exactly equal decoded values.',
+        note='Trusted: fractions arithmetic, mc.ref.tables. Fields wider than 40 bits after modification are outside the '
+             'quantifier; real numbers between lattice points are represented by the 6 offsets (incl. both sides of the '
+             'rounding tie).'),
     'C04': dict(
         level='model_checking', design='DESIGN.md §4 C04',
         technique='exhaustive enumeration of the full product data-bit-length 0..32 x descriptor-count form x edition '
